@@ -69,6 +69,15 @@ class VX {
     [Key] VA REF b;
     [Key] VX REF x;
 };
+class VM {
+    [Key] uint32 k;
+    string s;
+    uint32 DoIt(
+        [IN] uint8 P1, [IN] string P2, [IN] uint32 P3[],
+        [IN ( false ), OUT] boolean OB, [IN ( false ), OUT] boolean OBT,
+        [IN ( false ), OUT] char16 OC, [IN ( false ), OUT] string OS,
+        [IN ( false ), OUT] uint16 OA[], [IN ( false ), OUT] boolean OBA[]);
+};
 class VN0 { [Key] uint32 k; string s; };
 class VN1 { [Key] uint32 k; string s; };
 class VN2 { [Key] uint32 k; string s; };
@@ -86,6 +95,7 @@ def _instances_mof():
             out.append('instance of VN%d { k = %d; s = "n%d-%d"; };' %
                        (n, i, n, i))
     # VA tree: 2 VA, 2 VB, 1 VC
+    out.append('instance of VM { k = 1; s = "m1"; };')
     out.append('instance of VA as $a1 { k = 1; s = "a1"; u8a = {1,2}; b = true; };')
     out.append('instance of VA as $a2 { k = 2; s = "a2"; i64 = -5; };')
     out.append('instance of VB as $b3 { k = 3; s = "b3"; sb = "x"; };')
@@ -236,3 +246,33 @@ def fresh_with_namespace_provider():
             "interop", schema_pragma_file=schema_pragma_file())
         _NSP_TEMPLATE = conn
     return copy.deepcopy(_NSP_TEMPLATE)
+
+
+class VMMethodProvider(pywbem_mock.MethodProvider):
+    """Method provider for VM.DoIt: echoes the inputs into typed outputs
+    (used by the wire-equivalence check)."""
+    provider_classnames = "VM"
+
+    def InvokeMethod(self, methodname, localobject, params):
+        if methodname.lower() != "doit":
+            raise pywbem.CIMError(pywbem.CIM_ERR_METHOD_NOT_AVAILABLE)
+        p2 = params["P2"].value if "P2" in params else None
+        p3 = params["P3"].value if "P3" in params else None
+        out = [
+            pywbem.CIMParameter("OB", "boolean", value=False),
+            pywbem.CIMParameter("OBT", "boolean", value=True),
+            pywbem.CIMParameter("OC", "char16", value="x"),
+            pywbem.CIMParameter("OS", "string", value=p2),
+            pywbem.CIMParameter("OA", "uint16", is_array=True,
+                                value=[pywbem.Uint16(int(v) % 65536)
+                                       for v in (p3 or [])]),
+            pywbem.CIMParameter("OBA", "boolean", is_array=True,
+                                value=[False, True, False]),
+        ]
+        p1 = params["P1"].value if "P1" in params else 0
+        return (pywbem.Uint32(int(p1 or 0)), out)
+
+
+def register_method_provider(conn):
+    conn.register_provider(VMMethodProvider(conn.cimrepository),
+                           namespaces=[NS1, NS2])
